@@ -62,6 +62,27 @@ def p_retry(k, cls, nfail):
     return out
 
 
+def p_fallback(k, cls):
+    """the replacement of a failed kept call is computed (and kept) while the failure is still being handled."""
+    vlog.hit("p_fallback")
+    try:
+        a = dds.keep("/c10r/always", always_fails, k, cls)
+    except BaseException as e:
+        same = e is vlog.raised.get("always_fails")
+        a = ("fallback", same, dds.keep("/c10r/good", good, k))
+    return a
+
+
+def p_good_only(k):
+    vlog.hit("p_good_only")
+    return ("good-only", dds.keep("/c10r/good", good, k))
+
+
+def p_fails_only(k, cls):
+    vlog.hit("p_fails_only")
+    return dds.keep("/c10r/always", always_fails, k, cls)
+
+
 # --- a failed evaluation whose sub-result completed, then another pipeline that only loads that path
 
 
